@@ -149,6 +149,10 @@ def gen(t, tier):
             sc['coverage'] = [0.24, 0.24, 0.26, 0.26] if t.chance(0.5) else [0.49, 0.49, 0.51, 0.51]
         if t.chance(0.35):
             sc['coverage'] = None       # whole extent: the per-level fast paths of every backend on a deep pyramid
+    # some tiles are stored again later (a refresh): with the same content - for a linked single-colour tile the link
+    # already points where it should - or with new content; the tile is then as new as its latest store
+    sc['restore'] = [[t.choice(max(1, len(sc['tiles']))), t.pick([1.0, 5, 3600, 86400, 14 * 86400]), bool(t.chance(0.6))]
+                     for _ in range(t.pick([0, 0, 1, 2, 3]))] if has_ts else []
     sc['old_dirs'] = b['type'] == 'file' and bool(t.chance(0.2))
     sc['vanish'] = [t.choice(1000), t.choice(60)] if (b['type'] == 'file' and not b.get('link') and t.chance(0.25)) else None
     sc['slow_remove'] = t.pick([None] * 9 + [3.0, 7.0])
@@ -172,6 +176,8 @@ def shrink(sc):
         for i in range(0, n, size):
             c = copy.deepcopy(sc)
             del c['tiles'][i:i + size]
+            c['restore'] = [[r[0] - size if r[0] >= i + size else r[0], r[1], r[2]] for r in sc.get('restore') or []
+                            if not i <= r[0] < i + size and r[0] < n]
             if c['tiles']:
                 c['k'] = min(c['k'], len(c['tiles']) - 1)
                 yield c
@@ -182,6 +188,10 @@ def shrink(sc):
             c = copy.deepcopy(sc)
             c[key] = simple
             yield c
+    for i in range(len(sc.get('restore') or [])):
+        c = copy.deepcopy(sc)
+        del c['restore'][i]
+        yield c
     for i, item in enumerate(sc['tiles']):
         dt = item[1]
         if dt not in (0.0, 1.0):
@@ -360,6 +370,17 @@ def _run(sc, tape):
                                              w=U.TS, h=U.TS))
             cache.store_tile(t)
             times_of[tuple(coord)] = clock.now
+        for (ti, dt, same) in sc.get('restore') or []:
+            i = min(ti, len(tiles) - 1)
+            coord, _dt, colour = tiles[i]
+            clock.now += dt
+            if same:
+                spec = {'color': colour} if colour else {'tok': 5000 + i, 'size': 0}
+            else:
+                spec = {'tok': 7000 + i, 'size': 0}
+            cache.store_tile(C.make_tile(coord, C.payload(spec, w=U.TS, h=U.TS)))
+            times_of[tuple(coord)] = clock.now
+            probes['tiles_stored_again'] = probes.get('tiles_stored_again', 0) + 1
         # foreign objects
         foreign_tile = (1, 1, 1)
         tm2.cache.store_tile(C.make_tile(foreign_tile, C.payload({'tok': 99, 'size': 0})))
@@ -380,6 +401,13 @@ def _run(sc, tape):
             if b['type'] == 'file':
                 # the tile's own write time: the link itself for linked single-colour tiles
                 recorded[coord] = w.fs.stat(cache.tile_location(Tile(coord)), follow_symlinks=False, _yield=False).st_mtime
+                # ... which must be the time of its latest store (in the file system's granularity): a tile is as new as
+                # its latest store, whatever the backend wrote down
+                res = w.fs.mtime_res
+                want = float(int(times_of[coord] / res) * res) if res else times_of[coord]
+                if abs(recorded[coord] - want) > 1e-6:
+                    probes['recorded_time_differs_from_store_time'] = probes.get('recorded_time_differs_from_store_time', 0) + 1
+                    recorded[coord] = want
             else:
                 recorded[coord] = times_of[coord]
         # threshold
